@@ -391,6 +391,26 @@ def _classify(repo, fn: Fn, st, v) -> str:
 
 
 def r5(repo, chk):
+    # the frames whose size is chosen by the writer (STREAM, CRYPTO) are sized from the flight budget, and start_frame
+    # re-checks the fixed part against it: the obligations are those of C01-R1b that mention the flight space
+    from . import c01
+
+    class Sub:
+        n = 0
+
+        def ob(self, rule, key, ok, msg="", loc="", detail=None):
+            if "remaining_flight_space" in key:
+                Sub.n += 1
+                return chk.ob("R5", key, ok, msg or "in-flight bytes beyond the congestion window can be emitted", loc, detail)
+            return ok
+
+        def count(self, *a):
+            pass
+
+    sub = Sub()
+    c01.r1b(repo, sub, c01.r1(repo, sub))
+    if Sub.n < 3:
+        raise AnalysisError(f"C08-R5: only {Sub.n} flight-space obligations were generated")
     ds = Fn(repo, CONN + "datagrams_to_send")
     mf = [(st, t, v) for st, t, v in ds.assigns(suffix="max_flight_bytes")]
     base = [x for x in mf if norm(x[2]) == "self._loss.congestion_window - self._loss.bytes_in_flight"]
